@@ -59,51 +59,6 @@ Proof.
     cbn in F2. apply sb_eqb_eq in F2. congruence.
 Qed.
 
-(* ================= trees for the expansion ================= *)
-
-Definition member_expr (off : nat) (out : string) (m : name) : lexpr :=
-  if String.eqb out TASK_OUTPUT_FINISHED
-  then LPar (LOr (LN (mk_atom_node m off TASK_OUTPUT_SUCCEEDED)) (LN (mk_atom_node m off TASK_OUTPUT_FAILED)))
-  else LN (mk_atom_node m off out).
-
-Definition task_out (n : node) : string :=
-  match n_qual n with Some q => std_name q | None => TASK_OUTPUT_SUCCEEDED end.
-
-(* what a left-hand node becomes *)
-Definition expand_node_e (fm : family_map) (n : node) : lexpr :=
-  match fam_members fm (n_name n) with
-  | Some ms =>
-      match n_qual n with
-      | Some q =>
-          match assoc String.eqb (std_name q) fam_to_mem_trigger_map with
-          | Some (ttype, all) => LPar (big_op all (map (member_expr (n_off n) ttype) ms))
-          | None => LN n
-          end
-      | None => LN n
-      end
-  | None => member_expr (n_off n) (task_out n) (n_name n)
-  end.
-
-Fixpoint expand_e (fm : family_map) (e : lexpr) : lexpr :=
-  match e with
-  | LN n => expand_node_e fm n
-  | LPar e => LPar (expand_e fm e)
-  | LAnd a b => LAnd (expand_e fm a) (expand_e fm b)
-  | LOr a b => LOr (expand_e fm a) (expand_e fm b)
-  end.
-
-(* a left-hand node that the parser accepts *)
-Definition node_accepted (fm : family_map) (n : node) : bool :=
-  match fam_members fm (n_name n) with
-  | Some ms =>
-      negb (is_nil ms)
-      && match n_qual n with
-         | Some q => match assoc String.eqb (std_name q) fam_to_mem_trigger_map with Some _ => true | None => false end
-         | None => false
-         end
-  | None => negb (is_fam_qual (task_out n))
-  end.
-
 (* ... and whose table entry is the documented one *)
 Definition left_node_ok (fm : family_map) (n : node) : bool :=
   node_accepted fm n
